@@ -6,6 +6,9 @@ import (
 	"sort"
 	"strings"
 
+	"github.com/paulsonkoly/calc/parser"
+	"github.com/paulsonkoly/calc/types/node"
+
 	"vharness/internal/core"
 	"vharness/internal/gen"
 	"vharness/internal/impl"
@@ -37,6 +40,10 @@ func c08Prelude() []string {
 		"cl = mk(1)",
 		"mkok = (c) -> () -> c + g",
 		"clok = mkok(10)",
+		"sc = (x) -> x",
+		"mkc = (n) -> {\n  h = () -> n\n  if n <= 0 1 / 0 else mkc(n - 1) + h()\n}",
+		"clg = (a) -> {\n  x = a\n  h = () -> x\n  t = deepl(100)\n  x = x + 1\n  h()\n}",
+		"deepl = (n) -> {\n  la = n\n  lb = la\n  if n <= 0 0 else 1 + deepl(n - 1)\n}",
 	}
 }
 
@@ -68,18 +75,25 @@ func c08Alphabet() []c08Stmt {
 		{"call-h", "h()", "", true},
 		{"toplevel-return-in-loops", "for i <- fromto(0, 5) {\n  g = g + 1\n  for j <- fromto(0, 2) if i == 1 return 7\n}", "g = g + 2", false},
 		{"deep-then-error", "g = deep(200) + u", "", true},
+		{"error-under-closure-creating-calls", "g = mkc(12)", "", true},
+		{"function-bound-then-error", "{\n  sc = (x) -> x * 10 + 7\n  da()\n}", "sc = (x) -> x * 10 + 7", true},
+		{"stray-closer", "}", "", true},
+		{"stray-bracket", "g = 5 ]", "", true},
 	}
 }
 
 func c08Observers() []string {
 	return []string{
 		"[g, arr, s]",
+		"clg(3)",
 		"f(3)",
 		"{\n  acc = 0\n  for i <- fromto(0, 4) acc = acc + i\n  acc\n}",
 		"{\n  r = []\n  for i <- map(dbl, () -> fromto(0, 3)) r = r + [i]\n  r\n}",
 		"deep(300)",
 		"clok()",
 		"{\n  r = []\n  for i, j <- gen(), fromto(5, 9) r = r + [[i, j]]\n  r\n}",
+		"sc(2)",
+		"[1.5, \"lit\", [7, 8]]",
 		"g = g + 1",
 		"[g, #arr]",
 	}
@@ -148,6 +162,17 @@ func c08Judge(hist []int) (sig, detail, stateKey string) {
 			return "differs-from-failure-free-session", fmt.Sprintf("history %v: observer `%s` gives %s after the history and %s in a session with the same globals that never saw the failing statements", names, clipStr(c08Observers()[i], 80), a[i], b[i]), ""
 		}
 	}
+	// the same two sessions typed line by line into the real read-eval loop (accumulator, processInput, echo)
+	lf, lt := c08ViaLoop(full), c08ViaLoop(twin)
+	if len(lf) < k || len(lt) < k {
+		return "session-lost-in-read-eval-loop", fmt.Sprintf("history %v typed into the read-eval loop: %d of %d statements were answered (failure-free twin: %d of %d)", names, len(lf), len(full), len(lt), len(twin)), ""
+	}
+	la, lb := lf[len(lf)-k:], lt[len(lt)-k:]
+	for i := range la {
+		if la[i] != lb[i] {
+			return "read-eval-loop-differs-from-failure-free-session", fmt.Sprintf("history %v typed into the read-eval loop: observer `%s` answers %q, in the failure-free session %q", names, clipStr(c08Observers()[i], 80), la[i], lb[i]), ""
+		}
+	}
 	if lastRef != nil {
 		gs := []string{}
 		for name, v := range lastRef.Globals {
@@ -174,7 +199,7 @@ func init() {
 	core.Register(&core.Check{
 		ID:    "C08",
 		Level: "model_checking",
-		Rule: "explicit-state search over session histories: all sequences of length <= 3 (quick) / 4 (thorough) over 26 statements (4 good ones; lexer, parser and unbalanced-input errors; every runtime error class at top level, at call depth 3, in a for / while body, in a generator suspended after a yield, in a nested generator, in the second iterator of a zip, in a closure call, after deep recursion, with partial global effects; a top-level return out of nested loops), each history followed by 9 observers (globals, calls, a summing loop, a generator composition, a zip over a failing generator, 300-deep recursion, an escaped closure, a further update). " +
+		Rule: "explicit-state search over session histories: all sequences of length <= 2, and a third of those of length 3 (quick) / all of length <= 4 (thorough) over 30 statements (4 good ones; lexer, parser and unbalanced-input errors; every runtime error class at top level, at call depth 3, in a for / while body, in a generator suspended after a yield, in a nested generator, in the second iterator of a zip, in a closure call, after deep recursion, with partial global effects; a top-level return out of nested loops), each history followed by 12 observers (globals, calls, a summing loop, a generator composition, a zip over a failing generator, 300-deep recursion, an escaped closure, a further update). " +
 			"Every history is replayed on a fresh real VM; oracle per transition: value/output/error of every statement equal the reference model's; through the hooks the machine is at rest after every statement (sp 0, no frames, no closure frames, no live contexts, ip at end of code); the observers answer exactly as in the failure-free twin session that performs only the documented global effects. states = distinct (reference global store, machine state) after a history; transitions = history extensions executed",
 		Assumptions: []string{"states are reported for coverage only; no pruning is done at these depths, every history is executed in full", "stdin is /dev/null, so read() is the read error case"},
 		Exec: func(payload string) (string, string) {
@@ -217,6 +242,9 @@ func c08Run(w *core.W) {
 	w.Family("histories")
 	n := len(c08Alphabet())
 	gen.Seqs(n, 0, maxLen, func(seq []int) bool {
+		if !w.Thorough() && len(seq) == 3 && seq[0]%3 != 0 {
+			return true // quick: all histories of length <= 2, and those of length 3 that start with every third statement
+		}
 		b, _ := json.Marshal(c08Item{append([]int{}, seq...)})
 		if !w.Mine(string(b)) {
 			return true
@@ -244,4 +272,31 @@ func c08Run(w *core.W) {
 		}
 		return !w.Expired("time budget reached")
 	})
+}
+
+const c08Marker = "@@next@@"
+
+// c08ViaLoop types the statements line by line into the real node.Loop (REPL style) with the real parser and a
+// fresh VM; a marker statement after each one separates the answers. Reports are reduced to their first line.
+func c08ViaLoop(stmts []string) []string {
+	s := impl.NewSession()
+	lines := []string{}
+	for _, st := range stmts {
+		lines = append(lines, strings.Split(st, "\n")...)
+		lines = append(lines, "write(\""+c08Marker+"\")")
+	}
+	out, pan := captureReport(func() { node.VerifLoop(node.NewVerifLineReader(lines), parser.Type{}, s.VM, true) })
+	if pan != "" {
+		return []string{"PANIC " + pan}
+	}
+	parts := strings.Split(stripReports(out), c08Marker+"> nil\n")
+	if len(parts) > 0 {
+		parts = parts[:len(parts)-1]
+	}
+	for i, p := range parts {
+		if strings.HasPrefix(p, "Parser:") || strings.HasPrefix(p, "Lexer:") {
+			parts[i] = "PARSE-ERROR"
+		}
+	}
+	return parts
 }
